@@ -150,3 +150,11 @@ Definition ec_elem_pixel (n : nat) (pm : list nat) (corners : bool) (E : list Z)
 (* the cube array axes (ascending) world axis w depends on through the mapping *)
 Definition ec_axes (corr : list (list bool)) (n : nat) (pm : list nat) (w : nat) : list nat :=
   filter (fun a => existsb (fun j => Nat.eqb (nth j pm n) (n - 1 - a) && cget corr w j) (seq 0 (length pm))) (seq 0 n).
+
+(* ---- utils.wcs.array_indices_for_world_objects: for each world OBJECT (in order of first occurrence of its name
+        among the world axes) the array axes of ALL its components, ascending.  (Before the repair the axes of the
+        object's last component alone were kept.) -------------------------------------------------------------- *)
+Definition object_axes (corr : list (list bool)) (n : nat) (comps : list Z) (o : Z) : list nat :=
+  filter (fun a => existsb (fun w => (nth w comps (-1) =? o) && cget corr w (n - 1 - a)) (seq 0 (length comps))) (seq 0 n).
+Definition objects_axes (corr : list (list bool)) (n : nat) (comps : list Z) : list (list nat) :=
+  filter (fun l => match l with [] => false | _ => true end) (map (object_axes corr n comps) (uniq comps)).
